@@ -569,6 +569,9 @@ def splice_function(src_text, spec, log, where, degraded=False):
                 text = text2
             except ExtractError as e:
                 log.append((r[0], where, 'optional rule not applicable: %s' % e))
+                if degraded and not (r[0] in ('R6', 'R7') or (r[0] == 'R8' and len(r) == 1)):
+                    # a closure contract, a float wrapper or a call redirection was lost: facts the proof relied on may be missing
+                    log.append(('DEGRADED-HINT', where, 'rule %s dropped' % r[0]))
             continue
         text = _apply_one_rule(text, r, log, where)
     return _splice_after_rules(text, src_text, spec, log, where, degraded)
@@ -714,6 +717,7 @@ def _splice_after_rules(text, src_text, spec, log, where, degraded=False):
         hits = [i for i, l in enumerate(tlines) if norm_ws(anchor) in norm_ws(l)]
         if degraded and len(hits) < nth:
             log.append(('DEGRADED', where, 'ghost block at anchor %r (#%d) dropped: anchor not found' % (anchor, nth)))
+            log.append(('DEGRADED-HINT', where, 'ghost block dropped'))
             continue
         if len(hits) < nth:
             raise ExtractError('anchor %r (#%d) not found in %s' % (anchor, nth, where))
@@ -1028,6 +1032,7 @@ def build_unit(template, repo, out_rs, out_map):
                           'src_end_line': line + text.count('\n'), 'sha256': sha, 'tags': item['tags'],
                           'out_first': first_out, 'out_last': len(out), 'mode': item['mode'],
                           'clauses': count_clauses(item), 'degraded': degraded if item['kind'] == 'fn' else None,
+                          'degraded_hint_lost': any(a == 'DEGRADED-HINT' and b == where for a, b, _ in log),
                           'has_loops': bool(find_loops(rewritten)[1]) if item['kind'] == 'fn' else False})
     out = auto_consts(out, functions, repo, log)
     with open(out_rs, 'w') as f:
